@@ -36,6 +36,7 @@ func checkC07(c *Ctx) {
 		"K-C07-aad / K-C07-mac: the AEAD additional data is seq||type||version||length and the MAC input is seq||header||payload, identically on the sealing and the opening side; the AEAD nonce is the explicit nonce or the sequence number",
 		"G-C07-seq: every successful encrypt/decrypt passes through exactly one incSeq call site; incSeq is a big-endian +1 with carry that panics instead of wrapping; changeCipherSpec zeroes the counter",
 		"K-C07-iv: every record's explicit IV is filled from Config.rand (error returned) for CBC or from the sequence number for AEAD before encrypt is called",
+		"K-C07-nonce: the AEAD wrappers (fixedNonceAEAD, xorNonceAEAD) hand the inner AEAD a nonce buffer into which the per-record nonce they were given has been copied or mixed before the call, and pass plaintext and additional data through unchanged",
 		"G-C07-deliver: in readRecord a record whose decrypt failed is never appended to the input or the handshake buffer and sets the sticky error with an alert; Read only pulls records while the sticky error is nil and returns it first")
 	c.NotDec = append(c.NotDec, "that a forged MAC or tag cannot be produced (cryptographic)", "constant-time behaviour of the padding extraction", "bounds of the block-buffer arithmetic in encrypt/decrypt")
 	getFX(c)
@@ -53,6 +54,7 @@ func checkC07(c *Ctx) {
 	c07Deliver(c)
 	c07ByVersion(c)
 	c07MustDecrypt(c)
+	c07WrapperNonce(c)
 	hashFed(c, "G-HASH-fed", []string{"gmtls"})
 	if n := completeCopies(c, "G-COPY-complete", "gmtls", func(f *ssa.Function) bool { return f.Name() == "marshal" || f.Name() == "unmarshal" }); n < 10 {
 		c.Undecided("G-COPY-complete", "gmtls", "copies into fresh buffers", fmt.Sprintf("only %d found", n), token.NoPos)
@@ -962,4 +964,129 @@ func c07MustDecrypt(c *Ctx) {
 	if n < 2 {
 		c.Undecided(rule, fname(rd), "readRecord calls", fmt.Sprintf("only %d found", n), rd.Pos())
 	}
+}
+
+// c07WrapperNonce: a type of package gmtls whose Seal/Open forward to an inner cipher.AEAD must make the inner nonce
+// depend on the nonce it was given: the inner nonce argument is that parameter, or a view of an object (a field array
+// of the receiver, a local) that received bytes derived from the parameter — copy(obj[..], nonce) or stores of values
+// loaded from nonce — on every path before the call. Otherwise every record is sealed under the same nonce.
+func c07WrapperNonce(c *Ctx) {
+	rule := "K-C07-nonce"
+	n := 0
+	// the object a slice/element address views: (receiver field) or alloc
+	var baseObj func(v ssa.Value) string
+	baseObj = func(v ssa.Value) string {
+		switch x := v.(type) {
+		case *ssa.Slice:
+			return baseObj(x.X)
+		case *ssa.IndexAddr:
+			return baseObj(x.X)
+		case *ssa.FieldAddr:
+			return fmt.Sprintf("field:%p.%d", x.X, x.Field)
+		case *ssa.Alloc:
+			return fmt.Sprintf("alloc:%p", x)
+		case *ssa.UnOp:
+			if x.Op == token.MUL {
+				return "load:" + baseObj(x.X)
+			}
+		}
+		return ""
+	}
+	for f := range c.P.AllFns {
+		if !inRepo(f) || f.Pkg == nil || f.Pkg.Pkg.Name() != "gmtls" || f.Blocks == nil || f.Signature.Recv() == nil || (f.Name() != "Seal" && f.Name() != "Open") || len(f.Params) != 5 {
+			continue
+		}
+		nonceP := f.Params[2]
+		derived := func(v ssa.Value) bool { // a value computed from bytes of the nonce parameter
+			seen := map[ssa.Value]bool{}
+			var walk func(v ssa.Value, d int) bool
+			walk = func(v ssa.Value, d int) bool {
+				if d > 8 || seen[v] {
+					return false
+				}
+				seen[v] = true
+				switch x := v.(type) {
+				case *ssa.Parameter:
+					return x == nonceP
+				case *ssa.UnOp:
+					return walk(x.X, d+1)
+				case *ssa.BinOp:
+					return walk(x.X, d+1) || walk(x.Y, d+1)
+				case *ssa.IndexAddr:
+					return walk(x.X, d+1)
+				case *ssa.Index:
+					return walk(x.X, d+1)
+				case *ssa.Slice:
+					return walk(x.X, d+1)
+				case *ssa.Convert:
+					return walk(x.X, d+1)
+				case *ssa.Extract:
+					return walk(x.Tuple, d+1)
+				case *ssa.Next:
+					return walk(x.Iter, d+1)
+				case *ssa.Range:
+					return walk(x.X, d+1)
+				case *ssa.Phi:
+					for _, e := range x.Edges {
+						if walk(e, d+1) {
+							return true
+						}
+					}
+				}
+				return false
+			}
+			return walk(v, 0)
+		}
+		for _, ci := range allCalls(f) {
+			call, ok := ci.(*ssa.Call)
+			if !ok || !call.Call.IsInvoke() || call.Call.Method.Name() != f.Name() || len(call.Call.Args) != 4 {
+				continue
+			}
+			n++
+			arg := call.Call.Args[1]
+			okNonce := arg == ssa.Value(nonceP) || derived(arg)
+			if !okNonce {
+				obj := baseObj(arg)
+				if obj != "" {
+					// writers of nonce-derived bytes into that object that execute before the call on every path
+					instrsOf(f, func(_ *ssa.BasicBlock, in ssa.Instruction) {
+						if okNonce {
+							return
+						}
+						switch w := in.(type) {
+						case *ssa.Call:
+							if bi, isBi := w.Call.Value.(*ssa.Builtin); isBi && bi.Name() == "copy" && baseObj(w.Call.Args[0]) == obj && derived(w.Call.Args[1]) && instrDominates(w, call) {
+								okNonce = true
+							}
+						case *ssa.Store:
+							if baseObj(w.Addr) == obj && derived(w.Val) && reachesAvoidingAll(w, call, nil) {
+								// element stores sit in a loop over the nonce: the loop must lie before the call
+								if w.Block().Dominates(call.Block()) || loopBefore(w.Block(), call.Block()) {
+									okNonce = true
+								}
+							}
+						}
+					})
+				}
+			}
+			c.Check(okNonce, rule, fname(f), "the inner "+f.Name()+" is given a nonce that depends on the record's nonce", "", "the nonce handed to the inner AEAD does not contain the per-record nonce this wrapper was given (it is built elsewhere and not used): every record of a connection is protected under the same nonce", call.Pos())
+			// plaintext and additional data pass through
+			c.Check(call.Call.Args[2] == ssa.Value(f.Params[3]) && call.Call.Args[3] == ssa.Value(f.Params[4]), rule, fname(f), "plaintext/ciphertext and additional data are passed through", "", "the inner "+f.Name()+" is not given this call's data and additional data", call.Pos())
+		}
+	}
+	if n < 2 {
+		c.Undecided(rule, "gmtls", "AEAD wrappers", fmt.Sprintf("only %d forwarding Seal/Open found", n), token.NoPos)
+	}
+}
+
+// loopBefore: block w lies in a loop all of whose exits lead to blocks that dominate-or-equal `at`... approximated as:
+// the header of the innermost loop containing w dominates `at` and `at` is outside that loop.
+func loopBefore(w, at *ssa.BasicBlock) bool {
+	for _, h := range loopHeaders(w.Parent()) {
+		lb := loopBlocks(h)
+		if lb[w] && !lb[at] && h.Dominates(at) {
+			return true
+		}
+	}
+	return false
 }
